@@ -1204,6 +1204,14 @@ class OP4:
                 Format string for numbers, eg: '%16.9E'.
         """
         numlen = digits + 5 + self._expdigits  # -1.digitsE-009
+        if self._expdigits < 3:
+            # values that print with a 3-digit exponent need one more
+            # character (otherwise negative ones overflow the field):
+            vals = matrix[3] if isinstance(matrix, tuple) else matrix
+            vals = np.abs(np.hstack((np.real(vals).ravel(), np.imag(vals).ravel())))
+            vals = vals[vals > 0.0]
+            if vals.size > 0 and (vals.max() >= 9.0e99 or vals.min() < 1.0e-99):
+                numlen += 1
         perline = 80 // numlen
 
         (rows, cols, form, mtype, multiplier, int_width) = OP4._get_header_info(
